@@ -107,7 +107,7 @@ func c16(r *core.Run) {
 	}
 	for s := 0; s < steps; s++ {
 		src.Begin("op")
-		switch src.Pick(5, 3, 1, 2, 1) {
+		switch src.Pick(5, 3, 1, 2, 1, 1) {
 		case 0:
 			if w := c16Write(r, e, dirs, faultDen, nil); w != nil {
 				written = append(written, *w)
@@ -116,6 +116,22 @@ func c16(r *core.Run) {
 			if len(written) > 0 {
 				c16Write(r, e, dirs, faultDen, &written[src.Intn(len(written))])
 			}
+		case 5: // a non-empty DIRECTORY sits under the name: removing "that file" must not take the tree away
+			nm := fmt.Sprintf("squatted-%d", s)
+			squat := expectedPath(last, nm)
+			if e.admin.MkdirAll(squat, 0o755) != 0 {
+				break
+			}
+			e.admin.WriteFile(squat+"/precious.txt", []byte("keep me\n"), 0o644)
+			before := e.w.FS.Snapshot("/")
+			var rerr error
+			e.do("RemoveSpec", func() { rerr = e.cache.RemoveSpec(nm) })
+			r.Notef("RemoveSpec(%q) with a non-empty directory at %s -> %v", nm, squat, rerr)
+			if !reflect.DeepEqual(before, e.w.FS.Snapshot("/")) {
+				r.Failf("remove", "not-exactly-that-file", "RemoveSpec(%q) found a non-empty directory at %s and changed the file system (returned %v): removing a Spec file must never remove a directory tree", nm, squat, rerr)
+			}
+			e.admin.Unlink(memfs.AT_FDCWD, squat+"/precious.txt")
+			e.admin.Rmdir(squat)
 		case 4: // somebody else removes a file that was written
 			if len(written) > 0 {
 				w := written[src.Intn(len(written))]
@@ -215,6 +231,26 @@ func c16Write(r *core.Run, e *env, dirs []string, faultDen int, again *c16Writte
 	var err error
 	how := src.Intn(4)
 	id := hostileIDs[src.Intn(len(hostileIDs))]
+	suffix := []string{"", ".json", ".yaml"}[src.Intn(3)]
+	if src.Bool(1, 6) {
+		// a long, drawn id: the file name comes out 200-255 bytes long, the
+		// longest a directory entry can be (longer names cannot be written at
+		// all and are not asked for); every run draws another one
+		const alphabet = "abcdefghijklmnopqrstuvwxyz0123456789_-."
+		ext := []string{"", "", ".json", ".yaml"}[src.Intn(4)]
+		// "<vendor>-<class>_<id>" plus the suffix appended below, plus the default
+		// extension if the result has none: never more than 255 bytes
+		room := 255 - len(m.Vendor) - len(m.Class) - 2 - len(ext) - len(suffix)
+		if ext == "" && suffix == "" {
+			room -= len(".yaml")
+		}
+		n := room - src.Intn(12)
+		var b strings.Builder
+		for i := 0; i < n; i++ {
+			b.WriteByte(alphabet[src.Intn(len(alphabet))])
+		}
+		id = b.String() + ext
+	}
 	switch how {
 	case 0:
 		name = cdi.GenerateSpecName(m.Vendor, m.Class)
@@ -231,7 +267,7 @@ func c16Write(r *core.Run, e *env, dirs []string, faultDen int, again *c16Writte
 	if strings.Contains(name, "/") || name == "." || name == ".." || name == "" {
 		r.Failf("name", "not-a-single-component", "generated name %q (vendor %q class %q id %q) is not a single path component", name, m.Vendor, m.Class, id)
 	}
-	name += []string{"", ".json", ".yaml"}[src.Intn(3)]
+	name += suffix
 	_ = last
 	return c16DoWrite(r, e, dirs, faultDen, m, name, false)
 }
